@@ -50,6 +50,10 @@ type genCfg struct {
 
 var constVals = []interface{}{1.0, 2.0, "x", "y", true, nil, 1.5}
 
+// bigVals: values for action-set bindings whose text form depends on their Go type
+// (1000000 as int64, 1e+06 as float64)
+var bigVals = []interface{}{1000000.0, 2500000.0}
+
 func genConst(c *sim.Ctx) interface{} { return constVals[c.Intn(len(constVals), "const")] }
 
 func genValue(c *sim.Ctx, depth int) interface{} {
@@ -208,6 +212,9 @@ func genAction(c *sim.Ctx, cfg genCfg, names []string, guard bool) *ref.Action {
 		case k <= 6:
 			key := append(append([]string{}, bsKeys...), "?v", "k!", "next")[c.Intn(6, "setkey")]
 			var v interface{} = genValue(c, 0)
+			if c.Chance(1, 10, "bigval") {
+				v = bigVals[c.Intn(len(bigVals), "bigvalwhich")]
+			}
 			if key == "next" || key == "s" {
 				if c.Bool("setnode") {
 					v = names[c.Intn(len(names), "setnodename")]
